@@ -21,15 +21,16 @@ SPEC = {
         "of TN5177, at most 48 (CFF) / 513 (CFF2) operands per operator, segments only after a moveto, "
         "mask length ceil(stems/8), fewer than 2^32-7 stem hints",
         "INDEXes have at most 65536 entries (u16 count for CFF; the bias theorem is stated up to that)",
-        "blend scalars are inputs of the blend theorems (their computation from the variation store is C12)",
+        "blend scalars are inputs of the blend theorems (their computation from the variation store is C12); "
+        "any number of regions k >= 0",
     ],
     "rule": "structured random glyph programs (0-5 contours, all 23 operators with random operand counts "
             "incl. the 48/513 limits, optional width, stem hints and masks incl. implicit vstem, operands "
             "in random 1/2/3/5-byte encodings, 1/8 with fractional 16.16 values) factored at random token "
             "boundaries into local/global subroutines (pools of 0-6, 1239, 1240, 1241, 33899, 33900 entries; "
             "nesting 0-3 and chains of 9/10/11), wrapped in name-keyed CFF (55%), CID-keyed CFF with 1-3 "
-            "Font DICTs and decoy subrs (20%) or CFF2 with 1-3 Font DICTs, optional variation store and "
-            "blends (25%); 1/12 seac composites; 1/7 damaged (byte flip, truncation, inserted reserved/"
+            "Font DICTs and decoy subrs (20%) or CFF2 with 1-3 Font DICTs, optional variation store (1/6 of "
+            "the ItemVariationData list no regions: blend with k = 0) and blends (25%); 1/12 seac composites; 1/7 damaged (byte flip, truncation, inserted reserved/"
             "call/number bytes, 49+ operands, missing endchar); distinct = distinct input lines; class "
-            "histogram key = font kind : result kind : features (s subrs, c curves, m several contours) or error name",
+            "histogram key = font kind : result kind : features (s subrs, c curves, m several contours, z a region-less ItemVariationData in the store) or error name",
 }
